@@ -71,6 +71,70 @@ fn has_exotic_newline(s: &str) -> bool {
     false
 }
 
+/// KF-A class: a comment somewhere inside an equation.
+fn has_comment_in_equation(n: &SyntaxNode, in_eq: bool) -> bool {
+    let in_eq = in_eq || n.kind() == K::Equation;
+    if in_eq && matches!(n.kind(), K::LineComment | K::BlockComment) {
+        return true;
+    }
+    n.children().any(|c| has_comment_in_equation(c, in_eq))
+}
+
+/// KF-B class: a block comment that is a child of a Markup node which holds a list/enum/term item,
+/// or that lies inside such an item (comments there shift the columns Typst derives nesting from).
+fn has_block_comment_near_item(n: &SyntaxNode, in_item: bool) -> bool {
+    let is_item = |k: K| matches!(k, K::ListItem | K::EnumItem | K::TermItem);
+    if n.kind() == K::Markup {
+        let has_item = in_item || n.children().any(|c| is_item(c.kind()));
+        if has_item && n.children().any(|c| c.kind() == K::BlockComment) {
+            return true;
+        }
+    }
+    let in_item = in_item || is_item(n.kind());
+    n.children().any(|c| has_block_comment_near_item(c, in_item))
+}
+
+/// KF-C class: a term item whose term is empty (`/ :`).
+fn has_empty_term(n: &SyntaxNode) -> bool {
+    if n.kind() == K::TermItem {
+        let mut seen_marker = false;
+        for c in n.children() {
+            match c.kind() {
+                K::TermMarker => seen_marker = true,
+                K::Markup if seen_marker => {
+                    if c.children().len() == 0 {
+                        return true;
+                    }
+                    break;
+                }
+                K::Colon => return true,
+                _ => {}
+            }
+        }
+    }
+    n.children().any(has_empty_term)
+}
+
+/// Compare two texts under every property's observation (used to attribute a model/implementation
+/// disagreement to the properties whose observation it changes).
+pub fn obscmp(a: &str, b: &str) -> String {
+    let sa = Source::detached(a.to_string());
+    let sb = Source::detached(b.to_string());
+    let (ra, rb) = (sa.root(), sb.root());
+    let mut f: Vec<String> = Vec::new();
+    f.push(format!("c04={}", (ra.erroneous() == rb.erroneous()) as u8));
+    f.push(format!("c01={}", (obs::skeleton(ra, true) == obs::skeleton(rb, true)) as u8));
+    f.push(format!("c06={}", (obs::obs_comments(ra) == obs::obs_comments(rb)) as u8));
+    f.push(format!("c07={}", (obs::obs_off(ra) == obs::obs_off(rb)) as u8));
+    f.push(format!("c08={}", (obs::obs_markup(ra) == obs::obs_markup(rb)) as u8));
+    f.push(format!("c09={}", (obs::obs_math(ra) == obs::obs_math(rb)) as u8));
+    f.push(format!("c10={}", (obs::obs_literals(ra) == obs::obs_literals(rb)) as u8));
+    f.push(format!("c19={}", (obs::obs_imports(ra) == obs::obs_imports(rb)) as u8));
+    let lines = |s: &str| s.split('\n').map(|l| l.trim_start().to_string()).collect::<Vec<_>>();
+    f.push(format!("c12={}", (lines(a) == lines(b)) as u8));
+    f.join("\t")
+}
+
 pub fn run(w: usize, t: usize, reorder: bool, src: &str) -> String {
     let mut f: Vec<String> = Vec::new();
     let source = Source::detached(src.to_string());
@@ -81,6 +145,11 @@ pub fn run(w: usize, t: usize, reorder: bool, src: &str) -> String {
     f.push(format!("depth={}", obs::depth(root)));
     f.push(format!("exotic={}", has_exotic_newline(src) as u8));
     f.push(format!("f4={}", has_f4_literal(root) as u8));
+    f.push(format!("kfa={}", has_comment_in_equation(root, false) as u8));
+    f.push(format!("kfb={}", has_block_comment_near_item(root, false) as u8));
+    f.push(format!("kfc={}", has_empty_term(root) as u8));
+    let kfd = obs::obs_off(root).iter().any(|x| matches!(x, Some((_, t)) if t.contains('\n')));
+    f.push(format!("kfd={}", kfd as u8));
     typstyle_core::verif_hooks::reset();
     let res = format(config(w, t, reorder), src);
     let cnt = typstyle_core::verif_hooks::get();
@@ -125,9 +194,24 @@ pub fn run(w: usize, t: usize, reorder: bool, src: &str) -> String {
                 }
                 let a = obs::obs_off(root);
                 let b = obs::obs_off(oroot);
-                f.push(format!("c07={}", (a == b) as u8));
-                f.push(format!("c07n={}", a.len()));
-                if a != b {
+                // the property's own statement: the protected node's source text appears in the output
+                // character for character (apart from blanks at line ends), in order
+                let stripped_out = obs::strip_line_ends(&out);
+                let mut pos = 0usize;
+                let mut ok07 = true;
+                for t in a.iter().flatten() {
+                    match stripped_out[pos..].find(t.1.as_str()) {
+                        Some(i) => pos += i + t.1.len(),
+                        None => {
+                            ok07 = false;
+                            break;
+                        }
+                    }
+                }
+                let ok07 = ok07 && a.len() == b.len();
+                f.push(format!("c07={}", ok07 as u8));
+                f.push(format!("c07n={}", a.iter().filter(|x| x.is_some()).count()));
+                if !ok07 {
                     f.push(format!("c07d={}", hex(&first_diff(&a, &b))));
                 }
                 let a = obs::obs_markup(root);
